@@ -2,9 +2,12 @@ package c16
 
 import (
 	"bytes"
+	"context"
 	"encoding/binary"
 	"encoding/json"
 	"fmt"
+	"io"
+	"net"
 	"strings"
 	"time"
 
@@ -210,7 +213,96 @@ func buildFramesGroup() ([]*target, error) {
 		seeds: msgs, wantDepth: 2, hostile: true,
 		run: func(in []byte) outcome { return runFrames(frame(in)) },
 	}
-	return []*target{raw, withLen}, nil
+	// the connection itself: the untrusted runtime answers the host's first request (the handshake) with the input
+	var respSeeds []seed
+	for _, m := range msgs {
+		if m.name == "info-response" || m.name == "error" || m.name == "empty" {
+			respSeeds = append(respSeeds, m)
+		}
+	}
+	handshake := &target{
+		name: "rhp-handshake-response", doc: "input = the CBOR message an untrusted runtime sends in response to the host's RuntimeInfoRequest over a real protocol connection (the harness sets the message id to the request's): " +
+			"1 InitHost returned an error, 2 the runtime's error body was reported, 3 handshake completed",
+		seeds: respSeeds, wantDepth: 1, hostile: true,
+		run: runHandshake,
+	}
+	for _, b := range []string{`{"Error": {}}`, `{"Error": {"module": "", "code": 0}}`, `{"Error": {"module": "rhp", "code": 0, "message": "x"}}`, `{"Error": {"code": 4294967295}}`, `{}`} {
+		var body map[string]any
+		_ = json.Unmarshal([]byte(b), &body)
+		handshake.extra = append(handshake.extra, seed{"response-body-" + b, cbor.Marshal(map[string]any{"id": 0, "message_type": 2, "body": body})})
+	}
+	return []*target{raw, withLen, handshake}, nil
+}
+
+type nopHandler struct{}
+
+func (nopHandler) Handle(context.Context, *protocol.Body) (*protocol.Body, error) {
+	return &protocol.Body{Empty: &protocol.Empty{}}, nil
+}
+
+// runHandshake lets a real host-side connection perform its handshake against a peer that answers with the input.
+// A response is either turned into a result or into an error; "neither" ends in a nil dereference in the caller.
+func runHandshake(in []byte) outcome {
+	hostEnd, rtEnd := net.Pipe()
+	conn, err := protocol.NewConnection(logging.GetLogger("c16/rhp"), rtID, nopHandler{})
+	if err != nil {
+		return outcome{violSig: "harness", violMsg: err.Error()}
+	}
+	done, finished := make(chan struct{}), make(chan struct{})
+	go func() {
+		defer close(done)
+		defer rtEnd.Close()
+		_ = rtEnd.SetDeadline(time.Now().Add(2 * time.Second))
+		var hdr [4]byte
+		if _, err := io.ReadFull(rtEnd, hdr[:]); err != nil {
+			return
+		}
+		req := make([]byte, binary.BigEndian.Uint32(hdr[:]))
+		if _, err := io.ReadFull(rtEnd, req); err != nil {
+			return
+		}
+		var rm struct {
+			ID uint64 `json:"id"`
+		}
+		_ = cbor.Unmarshal(req, &rm)
+		// answer with the input; when it is a CBOR map its "id" is set to the request's so that it is routed to the caller
+		out := in
+		var generic map[string]any
+		if cbor.Unmarshal(in, &generic) == nil && generic != nil {
+			generic["id"] = rm.ID
+			out = cbor.Marshal(generic)
+		}
+		_, _ = rtEnd.Write(frame(out))
+		// keep the connection open until the host has acted on the response (closing right away races with the host's
+		// reader: the result must be a pure function of the input), but not for ever when the host ignores the frame;
+		// whatever the host sends meanwhile is drained
+		go func() { _, _ = io.Copy(io.Discard, rtEnd) }()
+		select {
+		case <-finished:
+		case <-time.After(300 * time.Millisecond):
+		}
+	}()
+	ctx, cancel := context.WithTimeout(context.Background(), 3*time.Second)
+	defer cancel()
+	ver, herr := conn.InitHost(ctx, hostEnd, &protocol.HostInfo{ConsensusBackend: "cometbft", ConsensusProtocolVersion: version.Versions.ConsensusProtocol, ConsensusChainContext: "c16"})
+	close(finished)
+	conn.Close()
+	_ = hostEnd.Close()
+	<-done
+	o := outcome{depth: 1}
+	switch {
+	case herr == nil && ver == nil:
+		o.violSig, o.violMsg = "handshake-neither-result-nor-error", "InitHost returned neither a version nor an error"
+	case herr == nil:
+		o.depth = 3
+		o.digest = "ok " + ver.String()
+	default:
+		if !strings.Contains(herr.Error(), "context deadline") && !strings.Contains(herr.Error(), "connection closed") {
+			o.depth = 2
+		}
+		o.digest = errDigest(herr)
+	}
+	return o
 }
 
 // ---------------------------------------------------------------------------------------
